@@ -76,19 +76,30 @@ func oneRuleListWindow(r *vkit.Run, s *srv, idx int) (goOn bool) {
 	}
 	defer e.close()
 	reqs := newRequesters()
-	mkReq := func() *requester {
+	// Readers 0,1 mod 4 are anonymous filtering groups (one long-lived
+	// *filter.ConfigGroup each, as in production), readers 2,3 mod 4 are
+	// profile clients without custom rules.
+	mkReq := func(w int) *requester {
 		q := onlyComp(reqs[rng.IntN(len(reqs))], "rulelist")
 		q.RuleLists = ids("vl_a", "vl_b", "vl_c")
-		return q
+		q.Name = fmt.Sprintf("group-%d", w)
+		if w%4 >= 2 {
+			q.Name = fmt.Sprintf("client-%d", w)
+			q.Profile = &profile{ID: q.Name, Idx: 8, Enabled: false, Ver: 1}
+		}
+		return q.fix()
 	}
 	readers := make([]*requester, nReaders)
 	for w := range readers {
-		readers[w] = mkReq()
+		readers[w] = mkReq(w)
 	}
-	prober := mkReq()
+	// after the refresh the same group (reader 0 builds its filter with
+	// ForConfig for every query) and the same client (reader 2) ask again
+	groupProber, clientProber := readers[0], readers[2]
 
 	var (
 		ops, inWindow, panics atomic.Int64
+		groupBuildsInWindow   atomic.Int64 // ForConfig(*filter.ConfigGroup) calls inside the window
 		pause, stop           atomic.Bool
 		window                atomic.Bool // list 1 re-downloaded, Refresh not yet returned
 		mu                    sync.Mutex
@@ -151,7 +162,7 @@ func oneRuleListWindow(r *vkit.Run, s *srv, idx int) (goOn bool) {
 						panics.Add(1)
 						w := map[string]any{
 							"phase": "rule-list-window", "history_index": idx, "when": "reader call while Refresh was running: " + fmt.Sprint(refreshing.Load()),
-							"host": k.host(), "qtype": dns.TypeToString[k.QT], "panic": fmt.Sprint(p),
+							"host": k.host(), "qtype": dns.Type(k.QT).String(), "panic": fmt.Sprint(p),
 							"filter_obtained_before_the_refresh": held != nil,
 						}
 						firstPanic.CompareAndSwap(nil, &w)
@@ -159,7 +170,11 @@ func oneRuleListWindow(r *vkit.Run, s *srv, idx int) (goOn bool) {
 				}()
 				f := held
 				if f == nil {
+					inWin := window.Load()
 					f = e.st.ForConfig(ctx, q.config(0))
+					if q.Profile == nil && inWin && window.Load() {
+						groupBuildsInWindow.Add(1)
+					}
 				}
 				_, _ = f.FilterRequest(ctx, &filter.Request{
 					DNS: q.newReq(k.host(), k.QT, uint16(n)), Messages: q.Msgs, RemoteIP: q.RemoteIP,
@@ -262,11 +277,23 @@ func oneRuleListWindow(r *vkit.Run, s *srv, idx int) (goOn bool) {
 		r.Bucket("rl_window_refreshes", 1)
 		r.Bucket("rl_window_reader_calls_between_list1_recompiled_and_refresh_return", inWindow.Load()-win0)
 		r.Bucket("rl_window_keys_touched_during_a_refresh", int64(len(keys)))
+		r.Bucket("rl_window_group_filters_built_inside_the_window", groupBuildsInWindow.Swap(0))
 		for ki := range keys {
 			k := rlKeyOf(ki, wide)
-			o := ask(e, prober, 0, query{Host: k.host(), QType: k.QT}, 98)
+			o := ask(e, groupProber, 0, query{Host: k.host(), QType: k.QT}, 98)
 			r.Bucket("rl_window_probes_after_refresh_returned", 1)
+			r.Bucket("rl_window_group_probes_after_refresh_returned", 1)
 			good, want := rlExpect(k, v, o)
+			var oc obs
+			clientGood := false
+			if !good || ki%3 == 0 {
+				oc = ask(e, clientProber, 1, query{Host: k.host(), QType: k.QT}, 97)
+				r.Bucket("rl_window_probes_after_refresh_returned", 1)
+				clientGood, _ = rlExpect(k, v, oc)
+				if good && !clientGood {
+					o, good = oc, false
+				}
+			}
 			if good {
 				continue
 			}
@@ -274,9 +301,19 @@ func oneRuleListWindow(r *vkit.Run, s *srv, idx int) (goOn bool) {
 			wit := map[string]any{
 				"phase": "rule-list-window", "history_index": idx, "round": round, "version_before": old, "version_after": v,
 				"rule": "host r<i>.vla.test is blocked by vl_a in version v iff i+v is even; vl_a is the first list of the index, the downloads after it are held back while readers ask",
-				"host": k.host(), "qtype": dns.TypeToString[k.QT], "expected": want, "observed": o, "when": "query started after Refresh returned, readers at the barrier",
+				"host": k.host(), "qtype": dns.Type(k.QT).String(), "expected": want, "observed": o, "when": "query started after Refresh returned, readers at the barrier",
+			}
+			wit["asked_by"] = "filtering group (the same *filter.ConfigGroup that was used during the refresh)"
+			if oc.Kind != "" {
+				wit["same_query_by_a_profile_client"] = oc
+				if o == oc {
+					wit["asked_by"] = "profile client"
+				}
 			}
 			switch okOld, _ := rlExpect(k, old, o); {
+			case okOld && clientGood:
+				r.Violation("stale:rulelist:group-keeps-pre-refresh-lists-after-refresh",
+					"after the storage refresh RETURNED a filtering group is still answered from the previous rule-list version (its filter was assembled while the refresh was running), while a profile client already gets the new version", wit)
 			case o.Kind == "panic":
 				r.Violation("rulelist:panic-during-refresh", "filtering panics on a result that was cached during the storage refresh", wit)
 			case okOld:
